@@ -268,4 +268,5 @@ let () =
       let full = L.mem "--full" rest in
       let path = L.nth rest (L.length rest - 1) in
       L.iter (run_case full) (parse_cases path)
-  | _ -> prerr_endline "usage: driver run [--full] <script>"; exit 2
+  | _ :: "pure" :: rest when rest <> [] -> Pure.main (L.nth rest (L.length rest - 1))
+  | _ -> prerr_endline "usage: driver run [--full] <script> | driver pure <queryfile>"; exit 2
